@@ -95,7 +95,7 @@ def monitor_validation(sess, extra):
         else:
             r.distinct.add(("bundle", len(a) if len(a) in LENS else "rand", len(b) if len(b) in LENS else "rand", bool(a) and not any(a)))
     if sess.ops and not r.samples:
-        o = sess.ops[9]
+        o = sess.ops[min(9, len(sess.ops) - 1)]
         r.samples.append({"call": o.raw[:160], "result": o.outcome()})
     return r
 
